@@ -208,6 +208,34 @@ def check_program(m, mod, rnd, res, case_base, nconf):
             for ov in cfg["overriders"]:
                 res.count("mech_" + ov["mech"])
             res.count("focus_" + ("meta" if cfg["focus"].startswith("#") else "attr" if "." in cfg["focus"] else "var"))
+    # closure variable rebound by the body (nonlocal): an override - unconditional, or one that
+    # declines the value seen at entry but supplies one at a later store - must not be applied silently
+    if m["closure"] and m.get("closure_write") == "cv2" and "cv2" in mod.f.__code__.co_freevars:
+        from ptera import ABSENT as _ABS, probing as _probing
+        from ptera.interpret import OverrideException as _OE
+
+        for mode in ("always", "not-at-entry"):
+            res.evaluations += 1
+            res.deciding += 1
+            mod.__reset__()
+            args, kwargs = mod.make_args(0)
+            err = None
+            try:
+                with _probing("f > cv2", env=vars(mod), overridable=True) as p:
+                    if mode == "always":
+                        p.override(lambda d: 12345)
+                    else:
+                        p.override(lambda d: _ABS if d["cv2"] == 43 else 12345)
+                    r = mod.f(*args, **kwargs)
+                    if m["is_gen"]:
+                        for _ in r:
+                            pass
+            except BaseException as e:
+                err = e
+            after = prorun.cells_of(mod.f)
+            if ("cv2", "12345") in after:
+                res.violation(dict(case_base, closure_override="cv2/" + mode), {"what": "a closure variable rebound with nonlocal was silently overridden (the enclosing scope's cell now holds the override)", "cells": after, "raised": repr(err)[:200]})
+            res.count("nonlocal_override_attempts")
     # closure variable: override must be refused loudly
     if m["closure"] and "cv1" in mod.f.__code__.co_freevars:
         from ptera import probing
